@@ -1335,8 +1335,16 @@ class ASTPartitionExpression(ASTBase):
 
     def source(self, sql_type: SQLType = SQLType.DEFAULT) -> str:
         """返回语法节点的 SQL 源码"""
-        partition_list_str = ", ".join(partition.source(sql_type) for partition in self.partitions)
+        partition_list_str = ", ".join(self._partition_source(partition, sql_type) for partition in self.partitions)
         return f"PARTITION ({partition_list_str})"
+
+    @staticmethod
+    def _partition_source(partition: ASTExpressionBase, sql_type: SQLType) -> str:
+        """分区键和分区值均按计算表达式解析，超过该层级的表达式需要保留括号"""
+        if isinstance(partition, ASTOperatorConditionExpression):
+            return (f"{source_with_parenthesis(partition.before_value, sql_type, 8)} {partition.operator.source(sql_type)} "
+                    f"{source_with_parenthesis(partition.after_value, sql_type, 8)}")
+        return source_with_parenthesis(partition, sql_type, 8)
 
 
 # ---------------------------------------- INSERT 语句 ----------------------------------------
